@@ -151,6 +151,7 @@ DoRun(ev) ==
         LET refused == \/ ~Admissible(sess.ctx.script, RealLimits.elem)
                        \/ (sess.ctx.sigver \in {"BASE", "WITNESS_V0"} /\ Len(sess.ctx.script) > RealLimits.script)
                        \/ (Has(cur, "fmods") /\ ~ModifyFlags(StrToCodes(cur.fmods))[1])
+                       \/ (Has(cur, "ptext") /\ ~PretendListWellFormed(cur.ptext))
             exp == IF refused THEN sess ELSE Continue(sess)
             expOut == CliOutcome(refused, exp)
             obsOut == [code |-> ev.code, sig |-> ev.sig, stdout |-> IF ev.code = 0 THEN ev.stdout ELSE <<>>]
